@@ -280,7 +280,31 @@ def check_refuse(ctx):
         ctx.violate(R, fn, "append = resize to old+new, write the new rows after the old ones",
                     "the append branch does not both resize the dataset and assign the new rows (found %d of the two steps): appended rows are lost or overwrite old ones" % len(muts), key="concat")
         return
-    first = min(muts, key=lambda s: s.lineno)
+    # every write to the target group that can happen on the append-to-existing path counts as "touching the file": the path is the one on which the existing
+    # header was read (its path condition) and is set (not None)
+    ehs = [s for s in A.walk_local(fn) if isinstance(s, ast.Assign) and isinstance(s.targets[0], ast.Name) and not (isinstance(s.value, ast.Constant))
+           and "%s[meta_path(%s)]" % (OG, NM) in A.unparse(A.inline_temporaries(s.value, s, fn)) and "get_header_from_yaml" in A.unparse(s.value)]
+    touched = list(muts)
+    if len(ehs) == 1:
+        on_path = A.path_condition(ehs[0], fn) + [A.nnf_of_src("%s is not None" % ehs[0].targets[0].id)]
+        for n in A.walk_local(fn):
+            cand = None
+            if isinstance(n, (ast.Assign, ast.AugAssign)):
+                tg = n.targets[0] if isinstance(n, ast.Assign) else n.target
+                if isinstance(tg, ast.Subscript) and OG in A.unparse(A.inline_temporaries(tg.value, n, fn)):
+                    cand = n
+            elif isinstance(n, ast.Delete):
+                if any(isinstance(t, ast.Subscript) and OG in A.unparse(A.inline_temporaries(t.value, n, fn)) for t in n.targets):
+                    cand = n
+            elif isinstance(n, ast.Call) and A.last_attr(n) in ("create_dataset", "create_group", "require_dataset", "require_group", "resize", "move", "clear", "pop", "update", "modify"):
+                st_ = A.enclosing_stmt(n)
+                if isinstance(n.func, ast.Attribute) and OG in A.unparse(A.inline_temporaries(n.func.value, st_, fn)):
+                    cand = st_
+            if cand is None or cand in touched or cand.lineno < ehs[0].lineno:
+                continue
+            if A.nnf_sat(A.conj(on_path + A.path_condition(cand, fn))):
+                touched.append(cand)
+    first = min(touched, key=lambda s: s.lineno)
     # (a) metadata merge in a try whose handler re-raises, dominating
     merges = [c for c in A.calls_in(fn) if A.call_name(c) == "metadata.merge"]
     ok = False
